@@ -147,7 +147,7 @@ def random_valid_bits(rng, nsym):
 
 def run(ctx):
     rng = ctx.rng
-    ctx.regen(["Nbits", "StdHuff", "HuffGen"])
+    ctx.regen(["Nbits", "StdHuff", "HuffGen", "HuffSym"])
     ctx.prove()
     drv = ctx.model_driver()
     flavours = ["simd", "plain"] if not ctx.thorough() else ["simd", "plain", "asan"]
